@@ -20,24 +20,24 @@ NA = {
 }
 
 TECHNIQUE = {
- "C01": "static analysis: CFG dominance of the availability guard over ledger writes, who-may-call over the whole repo, per-path effect bundles, guard algebra, loop-invariant verification of Resources.allocate per loop-body path (linear arithmetic)",
+ "C01": "static analysis: CFG dominance of the availability guard over ledger writes, who-may-call over the whole repo, per-path effect bundles, guard algebra, loop-invariant verification of Resources.allocate per loop-body path (linear arithmetic), cache-coherence and copy-independence analysis of the ledger classes",
  "C02": "static analysis: who-may-call, CFG edge-dominance of readiness over start, backward origin analysis of TASK_RELEASE tasks, typestate reachability, per-state evaluation of Task.is_complete, own-release-time rule for release events",
  "C03": "static analysis: write-site analysis of the clock, path enumeration of one simulate() iteration, linear-form checks of event times and Task.step, must-pass-through of Task.schedule, dominance of task.schedule over installed placement events",
- "C04": "static analysis: per-path effect summaries of Worker mutators (allowed bundles), mutation->refusal reachability (exception safety), copy-completeness/aliasing analysis, path-condition entailment of the batch-emptiness guard, additive-accumulation check of Resources.__add__",
- "C05": "static analysis: path enumeration of the next-scheduler routine (timeout dominance), event-time provability, exit-structure dominance, symbolic remaining time in Task.step, guard-algebra entailment of the end-of-work decision, formal/actual binding of the timeout",
- "C06": "static analysis: finite-domain abstract interpretation of Task (typestate relation over 8x8 states), exhaustive product BFS, value flow of cancellation results, scoping/equivalence/per-state evaluation of the cascade exemptions in TaskGraph.cancel",
+ "C04": "static analysis: per-path effect summaries of Worker mutators (allowed bundles), mutation->refusal reachability (exception safety), copy-completeness/aliasing analysis, path-condition entailment of the batch-emptiness guard, additive-accumulation check of Resources.__add__, cache-coherence analysis (memoised values vs mutators)",
+ "C05": "static analysis: path enumeration of the next-scheduler routine (timeout dominance), event-time provability, exit-structure dominance, symbolic remaining time in Task.step, guard-algebra entailment of the end-of-work decision, formal/actual binding of the timeout, per-state partial evaluation of Task.remaining_time",
+ "C06": "static analysis: finite-domain abstract interpretation of Task (typestate relation over 8x8 states), exhaustive product BFS, value flow of cancellation results, scoping/equivalence/per-state evaluation of the cascade exemptions in TaskGraph.cancel, pruned-worklist shape of the cascade, cache coherence of the sink set",
  "C07": "static analysis: path enumeration of the conditional branch (release counting), argument-role checks of the draw, loop/guard shape of submission-time resolution",
  "C08": "static analysis: CSV row schema extraction (writer) vs reader column uses with a frozen role table, keyword/attribute agreement, counter site/guard analysis",
  "C09": "static analysis: determinism lints - inter-procedural seed flow, uuid sources, seeding-order dominance, set-iteration (hash order) consumers, wall-clock taint",
- "C10": "static analysis: inter-procedural LIVE/SCRATCH taint (effect analysis) with a positive fixture, decision counting by path enumeration, constraint-shape normalisation, linear comparison of the capacity time grid with the placement-cell grid",
+ "C10": "static analysis: inter-procedural LIVE/SCRATCH taint (effect analysis) with a positive fixture, decision counting by path enumeration, constraint-shape normalisation, linear comparison of the capacity time grid with the placement-cell grid, copy-independence, aggregate accessors of BatchTask, configuration write-once rule",
  "C11": "static analysis: must-call dominance before the solve, linear normalisation of precedence constraints, indicator-pair complementarity, controlling-condition analysis of the parent set, start pin of running tasks",
  "C12": "static analysis: guard-algebra equivalence of the four admission tests, linear-expression builder model of the ILP deadline constraint, path-condition entailment of cell gating",
  "C13": "static analysis: sort-key normalisation (through partial/attrgetter/lambda), flag-aware path enumeration of the greedy placement loop",
  "C14": "static analysis: path-condition entailment (cell gating exactness), occupancy-window entailment in both directions, sibling cross-check, indicator gap analysis, entailment of the solve-call guards by the offer condition",
  "C15": "static analysis: guard dominance and shape checks of the Clockwork queues (profile guard, batch slicing, removal, availability and expiry predicates)",
  "C16": "static analysis: post-dominance of reheapify after re-timing, heap-list encapsulation, path-wise check of the ordering key, enum priority relations, EventTime operator shapes",
- "C17": "static analysis: worklist-discipline rule for traversals, structural checks of topological sort / longest path / depth / dependency, unit lint of longest-path weights, who-may-write and pairing of the adjacency maps",
- "C18": "static analysis: partial evaluation of the offer selection for every TaskState, polarity analysis of lookahead/release_taskgraphs, call-site parameter agreement, lower-bound (max) analysis of the completion-time estimates",
+ "C17": "static analysis: worklist-discipline rule for traversals, structural checks of topological sort / longest path / depth / dependency, unit lint of longest-path weights, who-may-write and pairing of the adjacency maps, cache-coherence analysis (cached_property / memo fields vs graph mutators)",
+ "C18": "static analysis: partial evaluation of the offer selection for every TaskState, polarity analysis of lookahead/release_taskgraphs, call-site parameter agreement, lower-bound (max) analysis of the completion-time estimates, purity (no memo) of the frontier queries",
  "C19": "static analysis: cross-iteration reaching definitions into constructors, dispatch/keyword agreement, configuration type agreement, closed-loop budget dominance, flag threading at instantiation calls, release-grid linear forms, wildcard-id rule for inventories",
 }
 
